@@ -31,7 +31,7 @@ STUBS = ["SimStream (logging seekable stream) for half of the cases"]
 
 SC = ["uint8", "int8", "uint16", "int16", "uint32", "int32", "uint64", "int64", "uint24", "float"]
 W = {"uint8": 1, "uint16": 2, "uint32": 4, "uint64": 8}
-TSTRUCT = "struct T { uint16 a; uint8 b; uint8 c[2]; };\n"
+TSTRUCT = "struct T { uint16 a; uint8 b; uint8 c[2]; };\nstruct N { uint16 v; N *next; uint8 *q; };\n"
 TSIZE = 5
 
 
@@ -46,8 +46,10 @@ def gen_case(rng: random.Random, tier: str):
             fields.append({"name": f"s{i}", "k": "scalar", "t": rng.choice(SC)})
         elif r < 0.5:
             fields.append({"name": f"p{i}", "k": "ptr", "t": rng.choice(SC), "depth": 1})
-        elif r < 0.65:
+        elif r < 0.6:
             fields.append({"name": f"p{i}", "k": "ptr", "t": "T", "depth": 1})
+        elif r < 0.68:
+            fields.append({"name": f"p{i}", "k": "ptr", "t": "N", "depth": 1})
         elif r < 0.78:
             fields.append({"name": f"p{i}", "k": "ptr", "t": "char", "depth": 1})
         elif r < 0.88:
@@ -85,8 +87,10 @@ def gen_case(rng: random.Random, tier: str):
             ops.append({"op": "dumps"})
         elif r < 0.86:
             ops.append({"op": "default_deref", "s": s})
-        elif r < 0.93:
+        elif r < 0.9:
             ops.append({"op": "deref2", "s": s})
+        elif r < 0.95:
+            ops.append({"op": "chain", "s": s, "hops": rng.randint(2, 4)})
         else:
             ops.append({"op": "str", "s": s})
     return {"cfg": cfg, "fields": fields, "slots": slots, "msize": msize, "img_seed": rng.getrandbits(32),
@@ -188,6 +192,17 @@ def run_case(case, stats):
             a = max(1, roots[0] + sl["r"] % max(1, rsize))
         a = min(a, maxaddr)
         addrs[(sl["f"], sl["j"])] = a
+    # linked nodes: a pointer to N that is valid gets a chain of planted nodes behind it (next -> next -> ...)
+    fmap0 = {f["name"]: f for f in fields}
+    for sl in case["slots"]:
+        if fmap0[sl["f"]]["t"] == "N" and sl["cls"] == "valid":
+            a = addrs[(sl["f"], sl["j"])]
+            for hop in range(3):
+                nxt = 1 + ((sl["r"] >> (5 * hop + 3)) * 7 + hop * 13) % max(1, M - 12)
+                if a + 2 + w > M:
+                    break
+                image[a + 2:a + 2 + w] = min(nxt, maxaddr).to_bytes(w, order)
+                a = nxt
     for ro in roots:
         for (fname, j), a in addrs.items():
             o = ro + offs[fname] + j * w
@@ -265,6 +280,28 @@ def run_case(case, stats):
             since_parse_stream_ops = 0
         elif cur is None:
             continue
+        elif k == "chain":
+            sl = case["slots"][op["s"]]
+            f = fmap[sl["f"]]
+            if f["t"] != "N" or f["depth"] != 1:
+                continue
+            p = ptr_of(cur, sl)
+            a = cur_addrs[(sl["f"], sl["j"])]
+            for hop in range(op["hops"]):
+                if a == 0:
+                    break
+                got, v = check_deref(p, f, 1, a, f"{sl['f']}[{sl['j']}] hop {hop}")
+                if got[0] == "exc" or v is None:
+                    break
+                stats.count("probe.second_hop_dereference" if hop else "probe.first_hop_dereference")
+                # the scalar pointer inside the node as well
+                qa = int.__index__(v.q)
+                if qa:
+                    check_deref(v.q, {"t": "uint8"}, 1, qa, f"{sl['f']}[{sl['j']}] hop {hop} .q")
+                p = v.next
+                if not isinstance(p, Pointer):
+                    raise Violation("dereference", "node_next_not_pointer", f"hop {hop}: next is {type(p).__name__}")
+                a = int.__index__(p)
         elif k in ("deref", "deref2", "attr", "str", "arith"):
             sl = case["slots"][op["s"]]
             f = fmap[sl["f"]]
